@@ -148,6 +148,77 @@ def decorator_names(fn: ast.AST) -> list[str]:
 
 
 # --------------------------------------------------------------------------------------------------
+# temporaries
+# --------------------------------------------------------------------------------------------------
+def inline_temporaries(fn_node: ast.AST, rounds: int = 4) -> ast.AST:
+    """Copy of a function in which single-assignment local temporaries (``x = <expr>`` with x bound exactly once, not a
+    parameter, loop/with/except/comprehension target or augmented) are substituted into their uses and the assignment
+    removed.  Used so that "introduce a temporary" refactorings do not change what a rule sees; line numbers survive."""
+    import copy
+
+    node = copy.deepcopy(fn_node)
+    for _ in range(rounds):
+        params = {a.arg for a in list(node.args.posonlyargs) + list(node.args.args) + list(node.args.kwonlyargs)}
+        if node.args.vararg:
+            params.add(node.args.vararg.arg)
+        if node.args.kwarg:
+            params.add(node.args.kwarg.arg)
+        bound: dict[str, int] = {}
+        simple: dict[str, ast.Assign] = {}
+        for n in ast.walk(node):
+            if n is node:
+                continue
+            if isinstance(n, FUNC + (ast.Lambda,)):
+                for a in ast.walk(n.args):
+                    if isinstance(a, ast.arg):
+                        bound[a.arg] = bound.get(a.arg, 0) + 2
+            if isinstance(n, ast.Name) and isinstance(n.ctx, (ast.Store, ast.Del)):
+                bound[n.id] = bound.get(n.id, 0) + 1
+            if isinstance(n, (ast.Global, ast.Nonlocal)):
+                for x in n.names:
+                    bound[x] = bound.get(x, 0) + 2
+        for st in ast.walk(node):
+            if isinstance(st, ast.Assign) and len(st.targets) == 1 and isinstance(st.targets[0], ast.Name):
+                simple[st.targets[0].id] = st
+            elif isinstance(st, ast.AnnAssign) and isinstance(st.target, ast.Name) and st.value is not None:
+                simple[st.target.id] = st
+        cands = {}
+        for name, st in simple.items():
+            if bound.get(name, 0) != 1 or name in params:
+                continue
+            val = st.value
+            # the value must not depend on names that are re-bound later (keep it simple: all its names bound <= 1 time)
+            if any(bound.get(x.id, 0) > 1 for x in ast.walk(val) if isinstance(x, ast.Name)):
+                continue
+            if any(isinstance(x, (ast.Yield, ast.YieldFrom, ast.Await, ast.NamedExpr)) for x in ast.walk(val)):
+                continue
+            cands[name] = st
+        if not cands:
+            break
+
+        class Sub(ast.NodeTransformer):
+            def visit_Name(self, n):  # noqa: N802
+                if isinstance(n.ctx, ast.Load) and n.id in cands:
+                    return copy.deepcopy(cands[n.id].value)
+                return n
+
+            def generic_visit(self, n):
+                for field in ('body', 'orelse', 'finalbody'):
+                    seq = getattr(n, field, None)
+                    if isinstance(seq, list):
+                        kept = [s for s in seq if not any(s is c for c in cands.values())]
+                        if not kept and seq and isinstance(seq[0], ast.stmt):
+                            kept = [ast.copy_location(ast.Pass(), seq[0])]
+                        setattr(n, field, kept)
+                return super().generic_visit(n)
+
+        node = Sub().visit(node)
+        ast.fix_missing_locations(node)
+    set_parents(node)
+    return node
+
+
+# --------------------------------------------------------------------------------------------------
 # modules
 # --------------------------------------------------------------------------------------------------
 class Module:
@@ -441,6 +512,21 @@ class FuncInfo:
 
     def nested(self, name: str) -> 'FuncInfo':
         return self.prog.func(f'{self.ref}.{name}')
+
+    def inlined(self) -> 'FuncInfo':
+        """The same function with single-assignment temporaries substituted (see inline_temporaries)."""
+        if not hasattr(self, '_inlined'):
+            clone = FuncInfo.__new__(FuncInfo)
+            clone.__dict__.update(self.__dict__)
+            clone.node = inline_temporaries(self.node)
+            clone.node._qual = getattr(self.node, '_qual', self.qual)
+            clone.node._module = self.module
+            self._inlined = clone
+        return self._inlined
+
+    def text(self) -> str:
+        """Normalised source of the function as written plus the variant with temporaries inlined (for pattern rules)."""
+        return src(self.node) + '\n# -- temporaries inlined --\n' + src(self.inlined().node)
 
 
 # --------------------------------------------------------------------------------------------------
